@@ -5,7 +5,8 @@
 //!   * `gen(ctx, emit)`    — the case stream (request lines) for a tier and seed.
 use crate::util::Rng;
 
-pub mod c09;
+mod registry;
+pub use registry::*;
 
 #[derive(Clone, Copy, PartialEq, Eq, Debug)]
 pub enum Tier {
@@ -35,10 +36,6 @@ pub struct PropDef {
     pub gen: Generator,
     /// which worker builds the property is run against
     pub modes: &'static [&'static str],
-}
-
-pub fn all() -> Vec<PropDef> {
-    vec![PropDef { id: "C09", handle: c09::handle, gen: c09::gen, modes: &["debug", "release"] }]
 }
 
 pub fn dispatch(line: &str) -> String {
